@@ -244,6 +244,7 @@ pub proof fn lemma_plan_facts<T, K: core::cmp::Ord>(
     ensures
         evict.len() == if s.len() <= cap { 0 } else { s.len() - cap },
         evict.to_multiset().add(move_back.to_multiset()).subset_of(s.to_multiset()),
+        evict.len() + move_back.len() <= s.len(),
 {
     broadcast use vstd::seq_lib::group_to_multiset_ensures;
     if s.len() <= cap {
@@ -264,12 +265,23 @@ pub proof fn lemma_plan_facts<T, K: core::cmp::Ord>(
         lemma_clock_conserves(q, must);
         let fin = clock(q, must).1;
         lemma_requeued_submultiset(fin);
+        lemma_requeued_len(fin);
         let ent = |i: int, x: QE<T>| x.e;
         assert(q.map(ent) =~= p);
         assert forall|v: T| #[trigger] evict.to_multiset().add(move_back.to_multiset()).count(v) <= s.to_multiset().count(v) by {
             assert(move_back.to_multiset().count(v) <= fin.map(ent).to_multiset().count(v));
             assert(evict.to_multiset().add(fin.map(ent).to_multiset()).count(v) == q.map(ent).to_multiset().count(v));
         }
+    }
+}
+
+pub proof fn lemma_requeued_len<T>(q: Seq<QE<T>>)
+    ensures
+        requeued_of(q).len() <= q.len(),
+    decreases q.len(),
+{
+    if q.len() > 0 {
+        lemma_requeued_len(q.drop_last());
     }
 }
 
